@@ -43,4 +43,4 @@ def run(ctx):
         # the partial theorems of coq/resume first (they set ctx.assumptions), then the full statement on top of them
         return base(proj, extra_projects) and check_full(ctx)
     ctx.static_and_proofs = both
-    rc.run_check(ctx, "C09", plans_quick=12, plans_thorough=90, frm=0)
+    rc.run_check(ctx, "C09", double_quick=2, plans_quick=8, plans_thorough=90, frm=0)
